@@ -120,7 +120,7 @@ theorem once_removed (β : Beh) (m : M) (hi : MInv m) (fr : Frame) (st : List Fr
     let m' := run β n (step β m)
     (∀ et l, (m'.srcs fr.src).handlers et = some l → ∀ y ∈ l, y.eid ≠ e.eid) ∧
     (∀ x ∈ m'.stack, x.src = fr.src → m.nextFid ≤ x.fid → ∀ y ∈ x.snap, y.eid ≠ e.eid) ∧
-    (∀ f, m.nextFid ≤ f → ∀ y, Ev.call f fr.src y ∈ m'.log → y.eid ≠ e.eid) := by
+    (∀ f, m.nextFid ≤ f → ∀ y lv, Ev.call f fr.src y lv ∈ m'.log → y.eid ≠ e.eid) := by
   intro m'
   have hl := Later.run (β := β) hi.step' (later_of_return (β := β) hi hp hs hc hr hrem) n
   exact ⟨hl.absent.2, hl.frames, hl.calls⟩
@@ -143,7 +143,7 @@ theorem unsubscribe_exact :
         let m' := run β n m
         (∀ et l, (m'.srcs i).handlers et = some l → ∀ y ∈ l, y.eid ≠ x) ∧
         (∀ fr ∈ m'.stack, fr.src = i → m.nextFid ≤ fr.fid → ∀ y ∈ fr.snap, y.eid ≠ x) ∧
-        (∀ f, m.nextFid ≤ f → ∀ y, Ev.call f i y ∈ m'.log → y.eid ≠ x)) := by
+        (∀ f, m.nextFid ≤ f → ∀ y lv, Ev.call f i y lv ∈ m'.log → y.eid ≠ x)) := by
   refine ⟨fun s x k => rfl, fun s h k => rfl, ?_, ?_, ?_⟩
   · intro s et x k l hl
     simp [doAction, removeWhere, Src.touch, hl, dropMatching, matchEid]
@@ -152,6 +152,45 @@ theorem unsubscribe_exact :
   · intro β m i x hi hx habs n m'
     have hl := (later_of_absent hi.wf ⟨hx, habs⟩).run (β := β) hi n
     exact ⟨hl.absent.2, hl.frames, hl.calls⟩
+
+/-- **insertion_position** (handler priorities with ties, also across re-entrant additions).  At every reachable moment
+— in particular in the middle of deliveries, when a handler subscribes — a successful `addListener` gets the next
+subscription id, larger than every id in every list of every source, and puts the new entry behind every existing entry
+of the same or a higher priority and ahead of every entry of lower priority; the other entries keep their order. -/
+theorem insertion_position (m : M) (hi : MInv m) (i et hid : Nat) (prio : Int) (once : Bool) (weak : Option Nat)
+    (hd : (m.srcs i).isDeclared et = true) :
+    let s := m.srcs i
+    let e : Entry := ⟨prio, hid, once, s.nextEid + 1, weak⟩
+    let old := s.subscribers et
+    let pre := old.takeWhile (fun x => decide (prio ≤ x.prio))
+    let post := old.dropWhile (fun x => decide (prio ≤ x.prio))
+    doAction s (.add et hid prio once weak) = ((addCore s et hid prio once weak).1, .ok (.pair et (s.nextEid + 1))) ∧
+    (addCore s et hid prio once weak).1.handlers et = some (pre ++ e :: post) ∧ pre ++ post = old ∧
+    (∀ x ∈ pre, prio ≤ x.prio) ∧ (∀ x ∈ post, x.prio < prio) ∧
+    (∀ j k l, (m.srcs j).handlers k = some l → ∀ x ∈ l, x.eid < e.eid) := by
+  intro s e old pre post
+  refine ⟨by simp [doAction, s, hd, addCore], add_position (hi.src i) et hid prio once weak, List.takeWhile_append_dropWhile,
+          ?_, dropWhile_lower old prio ((hi.src i).subs et).1, ?_⟩
+  · intro x hx; simpa using takeWhile_sat x hx
+  · intro j k l hl x hx
+    have := (hi.src j).bound k l hl x hx
+    have hs := hi.sync j i
+    show x.eid < (m.srcs i).nextEid + 1
+    omega
+
+/-- **bind_prefix_exact** (`autoBindEvents` / `addListeners` / `listenTo`).  Of the sink's `_handle[_<prefix>]_<Event>`
+methods exactly those are subscribed whose prefix is the one given and whose event the source declares — in `dir()`
+order, each once; and `removeListeners` with the list `autoBindEvents` returned (all named event types still having a
+list) takes out exactly the subscriptions named, per event type, and nothing else. -/
+theorem bind_prefix_exact (s : Src) (meths : List (Nat × Nat)) (pfx hb : Nat) (prio : Int) (weak : Option Nat)
+    (ha : s.acceptAll = false) :
+    (∃ ps, (doAction s (.bind meths pfx hb prio weak)).2 = .ok (.pairs ps) ∧
+       ps.map (·.1) = ((meths.filter fun m => m.1 == pfx).map (·.2)).filter (fun et => s.declared.contains et)) ∧
+    (∀ (l : List (Nat × Nat)) (k : Nat), (∀ p ∈ l, (s.handlers p.1).isSome = true) →
+       (doAction s (.rmMany l)).1.handlers k =
+         (s.handlers k).map (List.filter fun e => !(l.any fun p => p.1 == k && p.2 == e.eid))) := by
+  refine ⟨⟨(bindAll s (hb + 10 * pfx) prio weak ((meths.filter fun m => m.1 == pfx).map (·.2))).2, by simp [doAction, ha],
+    bindAll_pairs _ _ _ _ _⟩, fun l k hk => rmMany_exact s false l hk k⟩
 
 /-- **sources_independent.** An operation on one source (anything but the collection of an owner, which concerns every
 source holding its weak handlers) leaves every other source exactly as it was, except that the other source sees the
@@ -238,23 +277,53 @@ theorem weak_gone (srcs : Nat → Src) (i o j k : Nat) (l : List Entry)
   have := (List.mem_filter.mp he).2
   simpa [matchOwner] using this
 
+/-- **weak_midflight** (a weak handler whose owner dies in the middle of a delivery).  At any moment, let a handler (or
+top level) drop the last reference to owner `o`, none of whose methods is executing.  Then (i) no handler list of any
+source holds a subscription of `o` any more, and (ii) for every subscription of `o` that some in-flight delivery has
+still to reach (it sits in the rest of a snapshot — `delivery_exact` still counts it as visited, in order), the handler's
+code is never run again, by this or any other delivery, for ever: the proxy answers `None` by itself, or — if it could not
+remove itself because `clearHandlers` had thrown the list away — raises `ReventError` ("object is gone"), which ends that
+delivery like any handler exception. -/
+theorem weak_midflight (β : Beh) (m : M) (i o : Nat) (g : Bool) (hnr : ownerRunning m.stack o = false) :
+    let m1 := exec m ⟨i, .dropOwner o⟩ g
+    (∀ j k l, (m1.srcs j).handlers k = some l → ∀ e ∈ l, e.weak ≠ some o) ∧
+    (∀ fr ∈ m.stack, ∀ e ∈ fr.rest, e.weak = some o →
+        (e.eid, ((m.srcs fr.src).handlers fr.et).isNone) ∈ m1.gone ∧
+        ∀ n f s, Ev.call f s e true ∈ (run β n m1).log → Ev.call f s e true ∈ m.log) := by
+  intro m1
+  have hm1 : m1 = { m with srcs := (doActionM m.srcs i (.dropOwner o)).1, pend := some ((doActionM m.srcs i (.dropOwner o)).2, g),
+                           gone := m.gone ++ collect m.srcs o m.stack } := by
+    simp [m1, exec, hnr]
+  constructor
+  · intro j k l hl
+    rw [hm1] at hl
+    exact weak_gone m.srcs i o j k l hl
+  · intro fr hfr e he hw
+    have hmem := collect_mem m.srcs o m.stack fr hfr e he hw
+    have hg : (e.eid, ((m.srcs fr.src).handlers fr.et).isNone) ∈ m1.gone := by
+      rw [hm1]; exact List.mem_append_right _ hmem
+    refine ⟨hg, fun n f s hc => ?_⟩
+    have := gone_silent β m1 e.eid ⟨_, hg, rfl⟩ n f s e hc rfl
+    rw [hm1] at this; exact this
+
 /-- **lazy_init.** The listener counter is exact on an initialised source and raises `AttributeError` on one whose
 handler dictionary does not exist yet; subscribing (even when rejected), unsubscribing (even with a missing key),
 raising (even when rejected) and clearing create the dictionary; and once it exists it exists for ever, whatever happens. -/
 theorem lazy_init :
     (∀ s : Src, s.inited = true → doAction s .count = (s, .ok (.nat ((s.keys.map fun k => (s.subscribers k).length).sum)))) ∧
     (∀ s : Src, s.inited = false → doAction s .count = (s, .exc .attr)) ∧
-    (∀ (s : Src) (a : Action), (∀ ets b p w, a ≠ .bind ets b p w) → (∀ o, a ≠ .dropOwner o) → a ≠ .count →
+    (∀ (s : Src) (a : Action), (∀ ms q b p w, a ≠ .bind ms q b p w) → (∀ o, a ≠ .dropOwner o) → a ≠ .count → (∀ l, a ≠ .rmMany l) →
         (doAction s a).1.inited = true) ∧
     (∀ (β : Beh) (m : M) (i n : Nat), MInv m → (m.srcs i).inited = true → ((run β n m).srcs i).inited = true) := by
   refine ⟨fun s h => by simp [doAction, h, Src.count], fun s h => by simp [doAction, h], ?_, ?_⟩
-  · intro s a h1 h2 h3
+  · intro s a h1 h2 h3 h4
     cases a with
     | add et hid prio once weak => simp only [doAction]; split <;> rfl
-    | bind ets hb prio weak => exact absurd rfl (h1 _ _ _ _)
+    | bind meths pfx hb prio weak => exact absurd rfl (h1 _ _ _ _ _)
     | rmHandler hid et => simp only [doAction]; rw [(removeWhere_fields _ _ _).2.2.2.2]; rfl
     | rmEid eid et => simp only [doAction]; rw [(removeWhere_fields _ _ _).2.2.2.2]; rfl
     | rmPair et eid et' => simp only [doAction]; rw [(removeWhere_fields _ _ _).2.2.2.2]; rfl
+    | rmMany l => exact absurd rfl (h4 _)
     | clear => rfl
     | dropOwner o => exact absurd rfl (h2 _)
     | count => exact absurd rfl h3
@@ -279,8 +348,8 @@ def d60e : Entry := ⟨0, 1, true, 1, none⟩
 
 theorem once_raises_defect : ¬ once_strict d60β Variant.asIs cfg01 d60ops 12 := by
   intro h
-  have := h [.res (.ok (.pair 0 1)), .begin 0 0 0 [d60e], .call 0 0 d60e]
-    [.endf 0 true (.ok .none), .res (.ok .none), .begin 1 0 0 [d60e], .call 1 0 d60e, .ret 1 d60e .none false,
+  have := h [.res (.ok (.pair 0 1)), .begin 0 0 0 [d60e], .call 0 0 d60e true]
+    [.endf 0 true (.ok .none), .res (.ok .none), .begin 1 0 0 [d60e], .call 1 0 d60e true, .ret 1 d60e .none false,
      .endf 1 false (.ok (.event false)), .res (.ok (.event false))]
     0 d60e .other false (by decide) rfl 1 0 0 [d60e] (by decide)
   exact this (by decide)
@@ -297,15 +366,15 @@ theorem once_removed_raising (β : Beh) (m : M) (hi : MInv m) (hv : m.v.onceFina
     let m' := run β n (step β m)
     (∀ et l, (m'.srcs fr.src).handlers et = some l → ∀ y ∈ l, y.eid ≠ e.eid) ∧
     (∀ x ∈ m'.stack, x.src = fr.src → m.nextFid ≤ x.fid → ∀ y ∈ x.snap, y.eid ≠ e.eid) ∧
-    (∀ f, m.nextFid ≤ f → ∀ y, Ev.call f fr.src y ∈ m'.log → y.eid ≠ e.eid) := by
+    (∀ f, m.nextFid ≤ f → ∀ y lv, Ev.call f fr.src y lv ∈ m'.log → y.eid ≠ e.eid) := by
   intro m'
   have hfr : fr ∈ m.stack := by rw [hs]; exact List.mem_cons_self
   have hok := hi.wf.ok fr hfr
   have hmem : e ∈ fr.snap := by rw [← hok.calls, hok.rets]; simp [curEntry, hc]
   have hle : e.eid ≤ (m.srcs fr.src).nextEid := (hi.snaps fr hfr).2.2 e hmem
   have hlt : ∀ x ∈ st, x.fid < m.nextFid := fun x hx => hi.wf.lt x (by rw [hs]; exact List.mem_cons_of_mem _ hx)
-  have hnocall : ∀ f, m.nextFid ≤ f → ∀ y, Ev.call f fr.src y ∈ m.log → False := by
-    intro f hf y hy
+  have hnocall : ∀ f, m.nextFid ≤ f → ∀ y lv, Ev.call f fr.src y lv ∈ m.log → False := by
+    intro f hf y lv hy
     have := mem_callsOf hy
     rw [(hi.wf.fresh f hf).1] at this; cases this
   have hl0 : Later e.eid fr.src m.nextFid (step β m) := by
@@ -316,7 +385,7 @@ theorem once_removed_raising (β : Beh) (m : M) (hi : MInv m) (hv : m.v.onceFina
         unfold step; simp [hp, hs]
       rw [this]
       exact later_of_abort (m := { m with pend := none, log := m.log ++ [.res (.exc k)] }) hv hc ho hle hlt
-        (by intro f hf y hy; simp at hy; exact hnocall f hf y hy)
+        (by intro f hf y lv hy; simp at hy; exact hnocall f hf y lv hy)
   have hl := Later.run (β := β) hi.step' hl0 n
   exact ⟨hl.absent.2, hl.frames, hl.calls⟩
 
